@@ -30,5 +30,5 @@ var rules = []Rule{
 	{ID: "E3.literals", Doc: "every constant Decimal literal decodes under the BID layout to the value its constructor claims; only the frozen set of functions builds a Decimal from raw words",
 		Props: []string{"C12", "C15", "C19"}, Floor: 15, Run: ruleLayoutLiterals},
 	{ID: "E9.dispatch", Doc: "class-domain abstract interpretation of each operation on every tuple of operand classes {NaN,±Inf,±0,±finite}: every outcome on every path must be admissible under the IEEE 754 / Go math specification table (DESIGN.md App. A)",
-		Props: []string{"C01", "C02", "C03", "C04", "C08", "C09", "C10", "C11", "C13", "C14", "C15", "C16", "C17", "C19", "C20"}, Floor: 700, Run: ruleDispatch},
+		Props: []string{"C01", "C02", "C03", "C04", "C08", "C09", "C10", "C11", "C13", "C14", "C15", "C16", "C17", "C18", "C19", "C20"}, Floor: 1060, Run: ruleDispatch},
 }
